@@ -1,0 +1,12 @@
+//go:build verif
+
+package fbb
+
+// Exports of unexported functions for the verification harness in /verif.
+// Compiled only with -tags verif; adds no behaviour.
+
+func VerifSecureLoginResponse(challenge, password string) string {
+	return secureLoginResponse(challenge, password)
+}
+
+func VerifWinlinkSecureSalt() []byte { return append([]byte(nil), winlinkSecureSalt...) }
